@@ -6,10 +6,12 @@ Strings travel as arrays of code points (no dependence on either JSON library's 
   {"op":"escape","s":[..]}   -> {"r":[..]}                       json.dumps escaping (between the quotes)
   {"op":"dq","s":[..]}       -> {"r":[..]} | {"r":null}          YAML double-quoted scanning of that text
   {"op":"rt","s":[..]}       -> {"r":[..]} | {"r":null}          dq (escape s)
+  {"op":"emit","s":[..],"col":n} -> {"plainOK","allowSingle","multiline","styleV","styleK","textV":[..],"textK":[..],"emitV":[..]|null,"emitK":[..]|null}
+  {"op":"loadline","s":[..],"col0":bool} -> {"r":null} | {"tag":code,"v":[..],"rest":[..]}
   {"op":"info"}              -> table sizes and names
 -/
 import Lean.Data.Json
-import Jap.Core.Scalar
+import Jap.Core.Emitter
 
 open Lean Jap.Scalar
 
@@ -42,6 +44,20 @@ def step (j : Json) : Json :=
   | "escape" => Json.mkObj [("r", codes (jsonEscape s))]
   | "dq" => Json.mkObj [("r", optCodes (yamlDqUnescape s))]
   | "rt" => Json.mkObj [("r", optCodes (jsonStringRoundTrip s))]
+  | "emit" =>
+    let col := match j.getObjVal? "col" with
+      | .ok (.num n) => n.mantissa.toNat
+      | _ => 0
+    let sty (x : Style) : Json := match x with
+      | .plain => "plain" | .single => "single" | .double => "double"
+    Json.mkObj [("plainOK", .bool (allowBlockPlain allowUnicodeCfg s)), ("allowSingle", .bool (allowSingle allowUnicodeCfg s)),
+      ("multiline", .bool (isMultiline s)), ("styleV", sty (styleOf false s)), ("styleK", sty (styleOf true s)),
+      ("textV", codes (textOf false s)), ("textK", codes (textOf true s)),
+      ("emitV", optCodes (emitScalar col s)), ("emitK", optCodes (emitKey s))]
+  | "loadline" =>
+    match loadLine s with
+    | none => Json.mkObj [("r", .null)]
+    | some (t, v, r) => Json.mkObj [("tag", .num (JsonNumber.fromNat t.code)), ("v", codes v), ("rest", codes r)]
   | "info" => Json.mkObj [("K", .num (JsonNumber.fromNat Jap.Gen.Resolvers.K)), ("nstates", .num (JsonNumber.fromNat Jap.Gen.Resolvers.nstates)),
       ("tags", .arr (Jap.Gen.Resolvers.tagNames.map Json.str).toArray), ("images", .arr (Jap.Gen.Resolvers.imgNames.map Json.str).toArray),
       ("ensure_ascii", .bool Jap.Gen.DumpCfg.jsonEnsureAscii)]
